@@ -1256,6 +1256,32 @@ func rtGen(r *rand.Rand, tier string, n int, emit rtEmit) {
 			emit(c, "chain")
 		}
 	}
+	// J2. chains that expand a block beyond what the decoder accepts (the encoder then stores the block untransformed):
+	//     several SRT stages on small blocks, every entropy codec (the TPAQ predictor is sized from the block length in the
+	//     ctx), data with repeats and with all 256 symbols, every checksum width
+	{
+		for _, nSRT := range []int{4, 5, 6, 8} {
+			for ei, e := range g1Entropies {
+				for si, sh := range []string{"text", "skew-250-6", "random", "runs"} {
+					if !thorough && (nSRT+ei+si)%2 == 1 {
+						continue
+					}
+					c := base("expanding-chain")
+					c.T = strings.TrimSuffix(strings.Repeat("SRT+", nSRT), "+")
+					if si == 1 && nSRT < 8 {
+						c.T += "+LZ"
+					}
+					c.E = e
+					c.Shape = sh
+					c.BS = 1024
+					c.Size = []int{1024, 2500, 4096 + 700}[(ei+si)%3]
+					rndCommon(&c)
+					c.CK = []int{0, 32, 64}[(nSRT+ei)%3]
+					emit(c, "expanding-chain")
+				}
+			}
+		}
+	}
 	// K. large blocks
 	{
 		cnt := 6
